@@ -14,9 +14,49 @@ BRANCH_TERMS = ('IfStmt', 'ConditionalOperator', 'BinaryOperator', 'WhileStmt', 
                 'BinaryConditionalOperator')
 
 
+NONWRITING_METHODS = ('end', 'cend', 'rend', 'crend', 'cbegin', 'size', 'empty', 'has_value', 'find', 'count',
+                      'contains', 'length', 'capacity', 'max_size', 'operator bool', 'str', 'c_str', 'compare',
+                      'starts_with', 'ends_with', 'substr', 'first', 'last', 'subspan', 'string', 'filename',
+                      'parent_path', 'native', 'load', 'lock', 'expired', 'use_count', 'time_since_epoch', 'count')
+ELEMENT_ACCESS = ('begin', 'rbegin', 'data', 'operator[]', 'at', 'front', 'back', 'value', 'operator*', 'operator->',
+                  'get', 'second', 'first')
+NONWRITING_CALLEES = ('std::span<', 'std::basic_string_view<', 'std::as_const', 'std::begin', 'std::end', 'std::size',
+                      'std::data', 'std::cbegin', 'std::cend', 'std::empty', 'std::get', 'std::holds_alternative',
+                      'std::visit', 'std::min', 'std::max', 'std::addressof')
+
+
+def _is_mut_ref(t):
+    t = t.strip()
+    if t.endswith('&&'):
+        return False          # binds rvalues only (a concrete instantiated type)
+    if t.endswith('&'):
+        return not t.startswith('const ') and ' const &' not in t and 'const&' not in t
+    if t.endswith('*'):
+        return not t.startswith('const ')
+    return False
+
+
+def _arg_param_type(fn, call, arg):
+    nd = fn.nodes[call]
+    pts = nd.get('pt')
+    if pts is None:
+        return None
+    args = fn.call_args(call)
+    if nd['k'] == 'CXXOperatorCallExpr' and fn.nodes[call].get('cls'):
+        args = args[1:]       # member operator: first operand is the object
+    try:
+        idx = args.index(arg)
+    except ValueError:
+        return None
+    if idx < len(pts):
+        return pts[idx]
+    return None
+
+
 def local_writes(fn, d):
     """Nodes that (may) write local variable with decl id d, other than its declaration:
-    assignments, compound assignments, ++/--, address-of, non-const reference binding."""
+    assignments, compound assignments, ++/--, address-of, mutating member calls, binding to a
+    non-const reference parameter, element access used as an lvalue."""
     cache = getattr(fn, '_lw', None)
     if cache is None:
         cache = {}
@@ -24,7 +64,6 @@ def local_writes(fn, d):
         for i, nd in enumerate(fn.nodes):
             if nd['k'] != 'DeclRefExpr' or nd.get('dk') not in ('Var', 'ParmVar', 'Binding', 'Decomposition'):
                 continue
-            # climb transparent wrappers
             j = i
             p = pm.get(j)
             while p is not None and fn.nodes[p]['k'] in ('ParenExpr',):
@@ -40,26 +79,102 @@ def local_writes(fn, d):
                 w = True
             elif k == 'UnaryOperator' and pn.get('op') in ('++', '--', '&'):
                 w = True
-            elif k == 'CXXOperatorCallExpr' and pn.get('op') in ('=', '+=', '-=', '++', '--', '|=', '&=', '<<=', '>>=') \
-                    and len(fn.kids(p)) >= 2 and fn.kids(p)[1] == j:
-                w = True
-            elif k == 'CXXMemberCallExpr' or k == 'MemberExpr':
-                # member call on the variable: non-const method may mutate
-                me = p if k == 'MemberExpr' else None
-                if me is not None:
-                    gp = pm.get(me)
-                    if gp is not None and fn.nodes[gp]['k'] == 'CXXMemberCallExpr' and fn.kids(gp)[0] == me:
-                        if not fn.nodes[gp].get('cconst') and not fn.nodes[gp].get('cstatic'):
-                            w = True
-            elif k in ('CallExpr', 'CXXConstructExpr', 'CXXTemporaryObjectExpr') and nd.get('lv'):
-                # passed as an lvalue (no lvalue-to-rvalue conversion in between): may bind a
-                # non-const reference.  const-qualified types cannot be written through.
-                if not nd.get('t', '').startswith('const '):
+            elif k == 'CXXOperatorCallExpr' and len(fn.kids(p)) >= 2 and fn.kids(p)[1] == j:
+                op = pn.get('op')
+                if op in ('=', '+=', '-=', '++', '--', '|=', '&=', '^=', '<<=', '>>=', '*=', '/='):
                     w = True
+                elif op in ('[]', '*', '->') and not pn.get('cconst'):
+                    w = _result_written(fn, p, pm)
+            elif k == 'MemberExpr':
+                gp = pm.get(p)
+                if gp is not None and fn.nodes[gp]['k'] == 'CXXMemberCallExpr' and fn.kids(gp)[0] == p:
+                    g = fn.nodes[gp]
+                    meth = g.get('callee', '').split('::')[-1]
+                    if g.get('cconst') or g.get('cstatic') or meth in NONWRITING_METHODS:
+                        w = False
+                    elif meth in ELEMENT_ACCESS:
+                        w = _result_written(fn, gp, pm)
+                    else:
+                        w = True
+                    p = gp
+                elif pn.get('mk') == 'Field':
+                    # x.field used as lvalue
+                    w = _result_written(fn, p, pm)
+            elif k in ('CallExpr', 'CXXConstructExpr', 'CXXTemporaryObjectExpr', 'CXXMemberCallExpr') and nd.get('lv'):
+                callee = pn.get('callee', '')
+                if any(callee.startswith(x) for x in NONWRITING_CALLEES):
+                    w = False
+                else:
+                    pt = _arg_param_type(fn, p, j)
+                    if pt is None:
+                        w = not nd.get('t', '').startswith('const ')
+                    else:
+                        w = _is_mut_ref(pt) and not nd.get('t', '').startswith('const ')
             if w:
                 cache.setdefault(nd['d'], []).append(p)
         fn._lw = cache
     return cache.get(d, [])
+
+
+def _result_written(fn, node, pm):
+    """The lvalue produced by `node` (element/field access) is written: assigned, incremented,
+    address taken, mutating member call, or bound to a non-const reference."""
+    j = node
+    while True:
+        p = pm.get(j)
+        if p is None:
+            return False
+        pn = fn.nodes[p]
+        k = pn['k']
+        if k == 'ParenExpr':
+            j = p
+            continue
+        if k == 'ImplicitCastExpr':
+            if pn.get('ck') == 'LValueToRValue':
+                return False
+            j = p
+            continue
+        if k in ('BinaryOperator', 'CompoundAssignOperator') and pn.get('op', '').endswith('=') and \
+                pn['op'] not in ('==', '!=', '<=', '>='):
+            return fn.kids(p)[0] == j
+        if k == 'UnaryOperator':
+            return pn.get('op') in ('++', '--', '&')
+        if k == 'MemberExpr':
+            gp = pm.get(p)
+            if gp is not None and fn.nodes[gp]['k'] == 'CXXMemberCallExpr' and fn.kids(gp)[0] == p:
+                g = fn.nodes[gp]
+                meth = g.get('callee', '').split('::')[-1]
+                if g.get('cconst') or g.get('cstatic') or meth in NONWRITING_METHODS:
+                    return False
+                if meth in ELEMENT_ACCESS:
+                    j = gp
+                    continue
+                return True
+            j = p
+            continue
+        if k == 'CXXOperatorCallExpr' and len(fn.kids(p)) >= 2 and fn.kids(p)[1] == j:
+            op = pn.get('op')
+            if op in ('=', '+=', '-=', '++', '--', '|=', '&=', '^=', '<<=', '>>=', '*=', '/='):
+                return True
+            if op in ('[]', '*', '->'):
+                j = p
+                continue
+            return False
+        if k in ('CallExpr', 'CXXConstructExpr', 'CXXTemporaryObjectExpr', 'CXXMemberCallExpr', 'CXXOperatorCallExpr'):
+            callee = pn.get('callee', '')
+            if any(callee.startswith(x) for x in NONWRITING_CALLEES):
+                return False
+            pt = _arg_param_type(fn, p, j)
+            if pt is None:
+                return True
+            return _is_mut_ref(pt)
+        if k in ('ArraySubscriptExpr',):
+            j = p
+            continue
+        if k == 'VarDecl':
+            t = pn.get('t', '')
+            return t.endswith('&') and not t.startswith('const ') or t.endswith('*')
+        return False
 
 
 def var_decl(fn, d):
@@ -576,3 +691,45 @@ def gate_check(fn, effects, gates, start=None):
                 if bid in res:
                     failures.append((elabel, glabel, nid, res[bid], len(pe)))
     return failures, checked
+
+
+def returns_true_only_if(fn, gates):
+    """For a bool function: every `return e` whose value can be true passes each gate, either on
+    the path (cut edges) or because e == true itself implies the gate fact (`return a && gate()`).
+    Returns (failures [(gate label, return node, witness)], number of returns examined)."""
+    cfg = Cfg.of(fn)
+    rets = []
+    for i in fn.walk():
+        nd = fn.nodes[i]
+        if nd['k'] != 'ReturnStmt' or not fn.kids(i):
+            continue
+        e = fn.kids(i)[0]
+        se = fn.strip(e)
+        if fn.nodes[se].get('cv') == '0' and fn.nodes[se]['k'] in ('CXXBoolLiteralExpr', 'IntegerLiteral'):
+            continue
+        rets.append((i, e))
+    failures = []
+    for glabel, is_pass in gates:
+        for r, e in rets:
+            if any(is_pass(f) for f in implied(fn, e, True)):
+                continue
+            loc = cfg.locate(r)
+            if loc is None:
+                raise AnalysisBroken('return at %s not in CFG' % fn.loc(r))
+            res = cfg.reach_avoiding(is_pass, {loc[0]})
+            if loc[0] in res:
+                failures.append((glabel, r, res[loc[0]]))
+    return failures, len(rets)
+
+
+def loops(fn):
+    return [i for i in fn.walk() if fn.nodes[i]['k'] in ('ForStmt', 'WhileStmt', 'DoStmt', 'CXXForRangeStmt')]
+
+
+def loop_has_early_exit(fn, loop):
+    body = fn.nodes[loop].get('body')
+    for i in fn.walk(body):
+        k = fn.nodes[i]['k']
+        if k in ('ReturnStmt', 'BreakStmt', 'GotoStmt', 'CXXThrowExpr'):
+            return True
+    return False
